@@ -161,6 +161,46 @@ func runC06(r *Run) {
 		}
 		r.Check(okA, "R2", antePkg+"."+cn+"#authz-limiter-second", where, "AuthzLimiterDecorator(MsgEthereumTx, …) is second", "AuthzLimiterDecorator must be the second decorator and be configured with the MsgEthereumTx type URL"+detail+": chain is "+strings.Join(c.names(), " → "))
 	}
+	// the three chains are the only chains, and each constructor returns its chain itself (no selecting wrapper
+	// that substitutes a shorter chain for some contexts — block height, mode — in front of it)
+	{
+		ctorNames := map[string]bool{antePkg + ".newEVMAnteHandler": true, antePkg + ".newCosmosAnteHandler": true, antePkg + ".newLegacyCosmosAnteHandlerEip712": true}
+		perCtor := map[string][]ssa.CallInstruction{}
+		for _, fn := range P.Funcs {
+			if !isHaqqPath(fnPkgPath(fn)) || isTestSupport(P, fn) || fn.Synthetic != "" {
+				continue
+			}
+			eachCall(fn, func(ci CallInfo) {
+				if ci.Name != "ChainAnteDecorators" || !strings.HasSuffix(ci.PkgPath, "cosmos-sdk/types") {
+					return
+				}
+				if fn.Parent() == nil && ctorNames[fnID(fn)] {
+					perCtor[fnID(fn)] = append(perCtor[fnID(fn)], ci.Instr)
+					return
+				}
+				r.Bad("R2", fnID(fn)+"#no-other-chain", P.Pos(instrPos(ci.Instr)), "an ante chain is assembled outside the three route constructors (or inside a closure of one): a chain that is not subject to the composition rules can be substituted for a route — e.g. a shorter chain without the reject/authz gates for some block heights or modes")
+			})
+		}
+		for name := range ctorNames {
+			fn, ok := P.FnOK(name)
+			if !ok {
+				continue
+			}
+			calls := perCtor[name]
+			okRet := len(calls) == 1
+			if okRet {
+				eachInstr(fn, func(in ssa.Instruction) {
+					if ret, ok := in.(*ssa.Return); ok {
+						if len(ret.Results) != 1 || stripValue(ret.Results[0]) != calls[0].Value() {
+							okRet = false
+						}
+					}
+				})
+			}
+			r.Check(okRet, "R2", name+"#returns-its-chain", P.Pos(fnPos(fn)), "one ChainAnteDecorators call, returned as is",
+				"the route constructor does not return its decorator chain itself (it assembles more than one chain, or wraps the chain in a handler that can choose something else): the composition rules then describe only one of the handlers the route can run")
+		}
+	}
 	if c := chains["newCosmosAnteHandler"]; c != nil {
 		requirePresent(r, "R2", "newCosmosAnteHandler", c, "ExtensionOptionsDecorator")
 		// the checker it is configured with must be the options' ExtensionOptionChecker (set in app to HasDynamicFeeExtensionOption)
